@@ -399,7 +399,10 @@ func (w *World) thorough(id string, def propDef, run *Run) {
 			if strings.HasPrefix(r.Name, "generated/") {
 				run.Notes = append(run.Notes, "generated variant not reported (may be behaviour-preserving): "+r.Name)
 			} else {
-				run.fail("selfcheck", r.Name, "", "the checker no longer reports a variant it is recorded to catch: "+r.Outcome)
+				// a regression of the checker, not a fact about /repo: reported, recorded in the
+				// evidence (self_validation.missed), never turned into a verdict on the property
+				fmt.Printf("SELF-VALIDATION: property=%s variant %s is recorded as caught but was not reported (%s)\n", id, r.Name, r.Outcome)
+				run.Notes = append(run.Notes, "self-validation: variant not reported: "+r.Name+" ("+r.Outcome+")")
 			}
 		}
 	}
